@@ -56,15 +56,14 @@ Conforms(e) ==
                  /\ e.out.ok
                  /\ e.out.words = [k \in 1..((Len(e.in.entropy) * 3) \div 4) |->
                                      wl[EncodeIdx(e.in.entropy, e.facts.sha, WB, CSDIV)[k] + 1]]
-            ELSE ~e.out.ok /\ e.out.err = "size" /\ e.out.words = <<>>
+            ELSE ~e.out.ok /\ e.out.err = "size"            \* what accompanies the error is not part of C03
     [] e.op = "bip39.MnemonicToEntropy" ->
          LET d == Decoded(e.in.words) v == ValidMnemonic(e.in.words, e.facts)
          IN /\ e.out.panic = "" /\ wl # <<>>
             /\ v # "nofact"
             /\ e.out.ok = (v = "true")
             /\ v = "true" => e.out.entropy = d.cand
-            /\ v = "false" => /\ e.out.entropy = <<>>
-                              /\ e.out.err = (IF d.wellFormed THEN "checksum" ELSE "mnemonic")
+            /\ v = "false" => /\ e.out.err = (IF d.wellFormed THEN "checksum" ELSE "mnemonic")
     [] e.op = "bip39.MnemonicToSeed" ->
          LET v == ValidMnemonic(e.in.words, e.facts)
          IN /\ e.out.panic = "" /\ wl # <<>>
